@@ -1193,9 +1193,22 @@ class Ev:
             scrut_val = scrut
         cases = []
         default = None
-        for a in arms:
+        for idx, a in enumerate(arms):
             if a.get("guard") is not None:
-                raise Opaque("match arm guard")
+                # `x if g => body` after constant arms: the catch-all of the switch so far is
+                # `if g { body } else { match over the remaining arms }`
+                consts_g, binds_g = self.pat_consts(a["pat"])
+                if consts_g is not None:
+                    raise Opaque("guard on a constant match arm")
+                env_g = dict(env)
+                for bid in binds_g:
+                    env_g[bid] = scrut
+                g = self.sym(a["guard"], env_g, gen)
+                rest = dict(e)
+                rest["arms"] = arms[idx + 1:]
+                body_a = a["body"]
+                default = ("guarded", g, body_a, env_g, rest)
+                break
             consts, binds = self.pat_consts(a["pat"])
             if consts is None:
                 env2 = dict(env)
@@ -1206,8 +1219,14 @@ class Ev:
             cases.append((consts, a))
         if default is None:
             raise Opaque("match without catch-all arm")
-        return b.switch(scrut_val, [(c, (lambda a: (lambda nb: arm_eval(a["body"], env, nb)))(a)) for c, a in cases],
-                        lambda nb: arm_eval(default[0]["body"], default[1], nb))
+        if default[0] == "guarded":
+            _, g, body_a, env_g, rest = default
+            dflt = lambda nb: nb.ite(g, lambda n2: arm_eval(body_a, env_g, n2), lambda n2: self.eval_match(rest, env, gen, n2, arm_eval))
+        else:
+            dflt = lambda nb: arm_eval(default[0]["body"], default[1], nb)
+        if not cases:
+            return dflt(b)
+        return b.switch(scrut_val, [(c, (lambda a: (lambda nb: arm_eval(a["body"], env, nb)))(a)) for c, a in cases], dflt)
 
     def pat_consts(self, p):
         """-> (list of ints, []) for constant patterns; (None, [binder ids]) for catch-all"""
